@@ -797,15 +797,13 @@ impl StoryState {
         // except with the current flow replaced with the copy above
         // (Assuming we're in multi-flow mode at all. If we're not then
         // the above copy is simply the default flow copy and we're done)
+        // (In this port the current flow is never stored in named_flows:
+        // switch_flow_internal swaps it in and out. Inserting the copy here
+        // left a stale duplicate of the current flow in the map, which
+        // write_json then wrote over the real current flow.)
         if self.named_flows.is_some() {
-            let mut nf = self.named_flows.clone();
-            nf.as_mut().unwrap().insert(
-                copy.current_flow.name.to_string(),
-                copy.current_flow.clone(),
-            );
+            copy.named_flows = self.named_flows.clone();
             copy.alive_flow_names_dirty = true;
-
-            copy.named_flows = nf;
         }
 
         if self.has_error() {
